@@ -462,3 +462,13 @@ def c19g(ctx):
                    'that bundle turn up at addresses of the next one')
     ok = any('.bundlx' in str(e) for e in exts)
     ctx.check(ok, 'defrag_compact_cache:temporary-index-starts-empty', 'the index file of the temporary (V1) bundle is removed as well', fn)
+
+
+@rule('C19.h', floor=1)
+def c19h(ctx):
+    """shared rule C07.c, re-evaluated for this property: the writers of a bundle exclude each other through
+    FileLock(<bundle>.lck, remove_on_unlock=True); the lock file is removed *while the lock is still held* (the descriptor is closed by
+    the removal path only afterwards / on failure).  Closed first, a second writer locks the old inode in the gap, the file is removed
+    under it, a third writer creates and locks a new file -- two writers append to one bundle and one record overwrites the other"""
+    from ..engine import share
+    share(ctx, 'C07', {'C07.c'})
